@@ -46,7 +46,8 @@ fn newton_scalar<T: Ev + Re + Sc>(t: &mut Toks, cx: &mut Ctx, run: impl Fn(&Newt
     cx.check(before.0.to_bits() == after.0.to_bits() && before.1.to_bits() == after.1.to_bits() && before.2 == after.2 && before.3.same(&after.3), "solve changed the solver's configuration");
     cx.check(wr_out(&r1) == wr_out(&r2) && same_vec(&tr1, &trace.borrow()), "a repeated call gave a different result");
     let calls = tr1.len();
-    cx.check(calls % 3 == 0 && calls <= 3 * max_iter, "evaluation count is not 3 per iteration / exceeds the iteration limit");
+    // "bounded number of function evaluations": at most 3 per configured iteration (the exact pattern is compared with the model, not demanded here)
+    cx.check(calls <= 3 * max_iter, "more than 3 function evaluations per configured iteration");
     cx.meta("iters", calls / 3);
     cx.meta("result", match &r1 { Ok(Ok(_)) => "ok", Ok(Err(_)) => "err", Err(_) => "panic" });
     match &r1 {
@@ -54,7 +55,15 @@ fn newton_scalar<T: Ev + Re + Sc>(t: &mut Toks, cx: &mut Ctx, run: impl Fn(&Newt
             cx.check(x.finite(), "success reported with a non-finite point");
             if family == "rootfree" { cx.fail("success reported for a function that has no root"); }
             if family.starts_with("basin") { let d = nearest(*x, &roots); cx.check(d <= 100.0 * tol + 1e-12 * (1.0 + x.mag()), &format!("success reported at distance {:e} from the nearest root (tol {:e})", d, tol)); } }
-        Ok(Err(_)) => { cx.check(calls == 3 * max_iter, "failure reported before the iteration limit was reached");
+        Ok(Err(xe)) => { cx.check(calls >= max_iter, "failure reported before the iteration limit was reached");
+            // "failure carries the last iterate": the Newton update of the last evaluated base point c (the last of each triple
+            // c+d, c-d, c), with the central difference quotient of the values the function returned; 1e-6 relative leaves room
+            // for any reasonable derivative estimate from those values
+            if calls >= 3 && calls % 3 == 0 { let (cp, cm, c0) = (tr1[calls - 3], tr1[calls - 2], tr1[calls - 1]);
+                let (fp, fm, f0) = (e.eval(&[cp]), e.eval(&[cm]), e.eval(&[c0]));
+                let upd = c0 - f0 / ((fp - fm) / (cp - cm));
+                if upd.finite() && xe.finite() { cx.check((*xe - upd).mag() <= 1e-6 * (1.0 + upd.mag()), &format!("failure does not carry the last iterate (carried value {:e} away from the Newton update of the last evaluated point)", (*xe - upd).mag())); } }
+            else if max_iter == 0 { cx.check(xe.same(&guess), "budget 0: failure does not carry the guess"); }
             if family.starts_with("basin") && max_iter >= 20 && tol >= 1e-12 { cx.fail("guess inside the basin of quadratic convergence but failure reported"); } }
         Err(c) => cx.fail(format!("solve panicked ({})", c)),
     }
@@ -95,7 +104,7 @@ fn newton_sys<T: Ev + Re + Sc>(t: &mut Toks, cx: &mut Ctx,
     let per_iter = if mode == "exact" { 1 } else { n + 2 };
     cx.meta("result", match &r1 { Ok(Ok(_)) => "ok", Ok(Err(_)) => "err", Err(_) => "panic" });
     if r1.is_ok() {
-        cx.check(calls % per_iter == 0 && calls <= per_iter * max_iter, &format!("{} evaluations: not {} per iteration or beyond the iteration limit", calls, per_iter));
+        cx.check(calls <= per_iter * max_iter, &format!("{} evaluations: more than {} per configured iteration", calls, per_iter));
         if mode == "exact" { cx.check(j1 == calls, "Jacobian not evaluated once per iteration"); }
         cx.meta("iters", calls / per_iter);
     }
@@ -103,7 +112,18 @@ fn newton_sys<T: Ev + Re + Sc>(t: &mut Toks, cx: &mut Ctx,
         Ok(Ok(x)) => { cx.check(x.vec.iter().all(|z| z.finite()), "success reported with a non-finite point");
             if family.starts_with("basin") && x.size() == root.len() { let d = (0..n).map(|i| (x[i] - root[i]).mag()).fold(0.0, f64::max);
             cx.check(d <= 100.0 * tol + 1e-10, &format!("success reported at distance {:e} from the root (tol {:e})", d, tol)); } }
-        Ok(Err(_)) => { cx.check(calls == per_iter * max_iter, "failure reported before the iteration limit was reached");
+        Ok(Err(xe)) => { cx.check(calls >= max_iter, "failure reported before the iteration limit was reached");
+            // "failure carries the last iterate": with c the last base point, J(c) (c - carried) = F(c) up to the accuracy of the
+            // Jacobian estimate (analytic derivative of the generated expression used as reference)
+            if max_iter == 0 { cx.check(same_vec(&xe.vec, &guess), "budget 0: failure does not carry the guess"); }
+            else if calls >= per_iter && calls % per_iter == 0 && xe.size() == n && f.ext.is_none() {
+                let c = &tr1[calls - per_iter]; let fc = vapply(&f, c);
+                if c.len() == n && fc.len() == n && fc.iter().all(|z| z.finite()) && xe.vec.iter().all(|z| z.finite()) {
+                    let mut worst = 0.0f64; let mut scale = 0.0f64; let mut okj = true;
+                    for i in 0..n { let mut acc = T::zero(); let mut sc = fc[i].mag();
+                        for j in 0..n { match f.comps[i].diff(j) { Some(d) => { let dj = d.eval(c); let t = dj * (c[j] - xe[j]); acc += t; sc += t.mag(); } None => { okj = false; } } }
+                        worst = worst.max((acc - fc[i]).mag()); scale = scale.max(sc); }
+                    if okj && worst.is_finite() { cx.check(worst <= 1e-4 * scale + 1e-9, &format!("failure does not carry the last iterate: J(c)(c - carried) differs from F(c) by {:e} (scale {:e})", worst, scale)); } } }
             if family.starts_with("basin") && max_iter >= 20 && tol >= 1e-10 { cx.fail("guess inside the basin of quadratic convergence but failure reported"); } }
         Err(_) => { cx.check(family == "badsize" || n == 0 || family == "singular", "system solve panicked on a well-formed problem"); }
     }
@@ -137,7 +157,8 @@ fn jacobian<T: Ev + Re + Sc>(t: &mut Toks, cx: &mut Ctx, run: impl Fn(Vector<T>,
             if j.rows() == m && j.cols() == n && tr.len() == n + 1 {
                 for c in 0..n {
                     // perturbed point: coordinate c is x_c + delta, earlier coordinates were restored to (x + delta) - delta, later ones untouched
-                    let ok_pt = (0..n).all(|k| { let e = if k == c { point[k] + dl } else if k < c { (point[k] + dl) - dl } else { point[k] }; tr[c + 1][k].same(&e) });
+                    // ("each coordinate is restored before the next is perturbed": either by undoing the perturbation or by putting the saved value back)
+                    let ok_pt = (0..n).all(|k| { if k == c { tr[c + 1][k].same(&(point[k] + dl)) } else if k < c { tr[c + 1][k].same(&((point[k] + dl) - dl)) || tr[c + 1][k].same(&point[k]) } else { tr[c + 1][k].same(&point[k]) } });
                     cx.check(ok_pt, &format!("evaluation point {} is not x with coordinate {} perturbed (restore-after-perturb violated)", c + 1, c));
                     for i in 0..m { let q = (os[c + 1][i] - os[0][i]) / dl; cx.check(j[(i, c)].same(&q), &format!("entry ({}, {}) is not the forward difference quotient", i, c)); }
                 }
@@ -150,7 +171,9 @@ fn jacobian<T: Ev + Re + Sc>(t: &mut Toks, cx: &mut Ctx, run: impl Fn(Vector<T>,
                         let slack = if dyadic { 0.0 } else { 8.0 * f64::EPSILON * (n as f64 + 2.0) * (1.0 + os[0][i].mag() + os[c + 1][i].mag() + 2.0 * terms) / delta };
                         cx.check((j[(i, c)] - e).mag() <= slack, &format!("affine map: entry ({}, {}) differs from the coefficient", i, c)); } } }
                 } else if family == "smooth" {
-                    for i in 0..m { for c in 0..n { if let Some(d) = f.comps[i].diff(c) { let e = d.eval(&point); let scale = 1.0 + os[0][i].mag() + e.mag();
+                    for i in 0..m { for c in 0..n { if let Some(d) = f.comps[i].diff(c) { let e = d.eval(&point);
+                        // (scale: the largest INTERMEDIATE magnitude of the evaluation, e.g. (1e6 + sin x) - 1e6 rounds at the level of 1e6)
+                        let scale = 1.0 + os[0][i].mag() + e.mag() + f.comps[i].peak(&point, &|z: &T| z.mag());
                         cx.check((j[(i, c)] - e).mag() <= 200.0 * delta * scale + 1e-7 * scale / (delta * 1e8).max(1.0) + 4.0 * f64::EPSILON * scale / delta, &format!("smooth map: entry ({}, {}) is {:e} away from the analytic derivative (delta {:e})", i, c, (j[(i, c)] - e).mag(), delta)); } } }
                 }
             }
